@@ -44,6 +44,10 @@ CHECKS["C05"] = ("fvh-blackbox", "generated pipelines with marker framing, segme
          "generated pipelines of valid, impossible (unknown / arity / wrong type / bad argument / missing key) and transactional items with hostile argument bytes, each item followed by ECHO of a unique marker, sent under generated segmentations (whole, byte by byte, cuts, per command, inside every header/CRLF); an independent RESP decoder must find exactly the expected frames with markers in place, errors for impossible commands, a usable connection afterwards, and byte-identical replies for the one-write send. 18 kinds of protocol-violating frames must draw an error reply.",
          "kernel-level TCP coalescing is not controlled (only what is written when); pub/sub and blocking commands are outside this generator; silence verdicts need 1.5 s without bytes plus a responsive control connection", "3/C05")
 
+CHECKS["C06"] = ("fvh-blackbox", "boundary-value enumeration over the socket (bisected to single requests) + grammar-aware hostile stream generation",
+         "every dispatched command name (read from the source at check time) x argument count x fuzzed position x a 47-value boundary pool x 13 key states, plus sub-command-aware forms, script-issued boundary commands and hostile Lua, sent in batches on throw-away connections against real server processes; after every batch / stream: process alive, PONG on a fresh connection within 5 s, sentinel data of all six types intact; failures are bisected to one request and confirmed on two fresh servers. The thorough tier runs the complete enumeration (1.3 M requests), the quick tier a seed-offset stride of it.",
+         "counts with magnitude in (2^20, 2^40) are not generated; process-stopping commands (SHUTDOWN, SLEEP, DEBUG, CLIENT PAUSE, ...) excluded; resource exhaustion needing GBs of legitimate data is out of reach; finding K06 tolerated for exactly one script", "3/C06")
+
 checks = []
 for i in ids:
     if i in CHECKS:
